@@ -320,6 +320,48 @@ theorem right_outer_mem_iff (wl : Nat) (L R : List Row) (c : Cond) (x : Row) :
   · rintro ⟨r, hr, hx⟩; exact ⟨r, hr, (key r).mp hx⟩
   · rintro ⟨r, hr, hx⟩; exact ⟨r, hr, (key r).mpr hx⟩
 
+/-! ### empty other side, always-true condition (NATURAL join of sources without a common column)
+
+  `ParseJoinCondition` yields NO condition when a NATURAL join finds no common column; `Evaluate(nil)` is TRUE.
+  INNER then is the cross product, but an OUTER join must still pad the preserved side when the other
+  side is empty. -/
+
+/-- LEFT / FULL against an empty right side: every left row once, NULL-padded — whatever the condition -/
+theorem left_outer_empty_other (wo wj : Nat) (chunks : List (List Row)) (c : Cond) :
+    outerImpl .left wo wj chunks [] c = chunks.flatten.map (fun l => l ++ nulls wj) := by
+  rw [left_outer_spec, leftSpec_empty_right]
+
+theorem right_outer_empty_other (wo wj : Nat) (chunks : List (List Row)) (c : Cond) :
+    outerImpl .right wo wj chunks [] c = chunks.flatten.map (fun r => nulls wj ++ r) := by
+  rw [right_outer_spec, rightSpec_empty_left]
+
+theorem full_outer_empty_other (wo wj : Nat) (chunks : List (List Row)) (c : Cond) :
+    outerImpl .full wo wj chunks [] c = chunks.flatten.map (fun l => l ++ nulls wj) := by
+  rw [full_outer_spec]; unfold fullSpec
+  rw [leftSpec_empty_right]; simp
+
+/-- FULL with an empty left side: every right row once, NULL-padded on the left -/
+theorem full_outer_empty_preserved (wo wj : Nat) (chunks : List (List Row)) (R : List Row) (c : Cond)
+    (he : chunks.flatten = []) : outerImpl .full wo wj chunks R c = R.map (fun r => nulls wo ++ r) := by
+  rw [full_outer_spec, he]; unfold fullSpec leftSpec
+  simp only [List.flatMap_nil, List.all_nil, List.nil_append]
+  congr 1
+  exact List.filter_eq_self.mpr (fun _ _ => rfl)
+
+/-- with an always-true condition and a non-empty right side nothing is padded: LEFT = cross product -/
+theorem left_outer_true_cond (wr : Nat) (L R : List Row) (c : Cond) (hc : ∀ x, c x = .T) (hR : R ≠ []) :
+    leftSpec wr L R c = crossSpec L R := by
+  unfold leftSpec crossSpec
+  congr 1
+  funext l
+  have : R.filter (fun r => decide (c (l ++ r) = .T)) = R := by
+    apply List.filter_eq_self.mpr
+    intro r _; simp [hc]
+  simp only [this]
+  cases R with
+  | nil => exact absurd rfl hR
+  | cons _ _ => rfl
+
 /-! ## select list -/
 
 /-- `View.Fix` over any chunking = row-wise projection -/
@@ -461,6 +503,54 @@ theorem recursive_cte_limit (step : List Row → List Row) (fuel : Nat) (anchor 
   · intro h j hj
     exact h (j + 1) (by omega) (by omega)
 
+/-! ## recursive CTE with UNION (distinct) -/
+
+/-- the result is the first-occurrence de-duplication (by comparison key) of the generations up to the first
+    empty one; with no non-empty step the anchor is returned as it is -/
+theorem recursive_union_spec {κ : Type} [DecidableEq κ] (key : Row → κ) (step : List Row → List Row) (fuel : Nat)
+    (anchor out : List Row) :
+    recursiveUnionImpl key step fuel anchor = some out ↔
+      ∃ k, k < fuel ∧ (∀ j, 1 ≤ j → j ≤ k → generation step anchor j ≠ []) ∧
+        generation step anchor (k + 1) = [] ∧
+        out = (if k = 0 then anchor else dedupBy key (generationsUpTo step anchor k)) := by
+  unfold recursiveUnionImpl
+  rw [recLoopU_some]
+  constructor
+  · rintro ⟨k, hk, hne, hemp, hout⟩
+    refine ⟨k, hk, ?_, hemp, by rw [generationsUpTo_eq]; exact hout⟩
+    intro j h1 hj
+    cases j with
+    | zero => omega
+    | succ j => exact hne j (by omega)
+  · rintro ⟨k, hk, hne, hemp, hout⟩
+    refine ⟨k, hk, fun j hj => hne (j + 1) (by omega) (by omega), hemp, by rw [← generationsUpTo_eq]; exact hout⟩
+
+theorem recursive_union_limit {κ : Type} [DecidableEq κ] (key : Row → κ) (step : List Row → List Row) (fuel : Nat)
+    (anchor : List Row) :
+    recursiveUnionImpl key step fuel anchor = none ↔ ∀ j, 1 ≤ j → j ≤ fuel → generation step anchor j ≠ [] := by
+  unfold recursiveUnionImpl
+  rw [recLoopU_none]
+  constructor
+  · intro h j h1 hj
+    cases j with
+    | zero => omega
+    | succ j => exact h j (by omega)
+  · intro h j hj
+    exact h (j + 1) (by omega) (by omega)
+
+/-- duplicates in the anchor (or anywhere in what was accumulated so far) do not change what later
+    generations contribute: de-duplicating early or late gives the same closure -/
+theorem union_result_ignores_anchor_duplicates {κ : Type} [DecidableEq κ] (key : Row → κ) (anchor rest : List Row) :
+    dedupBy key (dedupBy key anchor ++ rest) = dedupBy key (anchor ++ rest) :=
+  dedupBy_absorb key anchor rest
+
+/-- the de-duplicated result holds no key twice, keeps source order, and loses no key -/
+theorem dedup_spec {κ : Type} [DecidableEq κ] (key : Row → κ) (rows : List Row) :
+    ((dedupBy key rows).map key).Nodup ∧ (dedupBy key rows).Sublist rows ∧
+      ∀ x, x ∈ rows → ∃ y, y ∈ dedupBy key rows ∧ key y = key x :=
+  ⟨(dedupAux_keys key [] rows).1, dedupAux_sublist key [] rows,
+    fun x hx => dedupAux_complete key [] rows x hx (fun h => by cases h)⟩
+
 /-! ## non-vacuity -/
 
 /-- an integer cell (float view left out so that `decide` stays small) -/
@@ -486,5 +576,10 @@ example : usingImpl 2 [(0, 1)] [[[nullP, cI 4], [cI 3, cI 3]]] = some [[cI 4], [
 example : recursiveImpl (fun g => (g.filter (fun r => r != [cI 3])).map (fun _ => [cI 3])) 5 [[cI 1], [cI 2]]
     = some [[cI 1], [cI 2], [cI 3], [cI 3]] := by decide
 example : recursiveImpl (fun g => g) 5 [[cI 1]] = none := by decide
+-- UNION: duplicate anchor rows, the first step adds a new distinct row while the row count stays the same
+example : recursiveUnionImpl (fun r => r.map (fun p => p.int?))
+      (fun g => (g.filter (fun r => r != [cI 3])).map (fun r => if r == [cI 1] then [cI 2] else [cI 3])) 9 [[cI 1], [cI 1]]
+    = some [[cI 1], [cI 2], [cI 3]] := by decide
+example : outerImpl .left 1 2 [[[cI 1]], [[cI 2]]] [] (fun _ => .T) = [[cI 1, nullP, nullP], [cI 2, nullP, nullP]] := by decide
 
 end Csvq.C03
